@@ -168,13 +168,24 @@ func execHD(c Case) string {
 		sd2, _ := hdkeychain.GenerateSeed(uint8(atoi(a[0])))
 		return "ok:" + itoa(len(sd)) + ":" + b2s(!bytes.Equal(sd, sd2))
 	case "xnew": // xnew <version> <key> <chaincode> <parentFP> <depth> <childnum> <private>: the raw constructor
-		k := hdkeychain.NewExtendedKey(unhx(a[0]), unhx(a[1]), unhx(a[2]), unhx(a[3]), uint8(atoi(a[4])), uint32(atou(a[5])), a[6] == "1")
+		keyBuf, ccBuf, fpBuf := unhx(a[1]), unhx(a[2]), unhx(a[3])
+		k := hdkeychain.NewExtendedKey(unhx(a[0]), keyBuf, ccBuf, fpBuf, uint8(atoi(a[4])), uint32(atou(a[5])), a[6] == "1")
 		str := k.String()
 		nb := ""
 		for _, n := range nets {
 			nb += b2s(k.IsForNet(n))
 		}
-		return hs(str) + " " + nb + " " + b2s(k.IsPrivate()) + " " + itoa(int(k.Depth())) + " " + u64s(uint64(k.ParentFingerprint())) + " " + xkeyObs(hdkeychain.NewKeyFromString(str))
+		obs := hs(str) + " " + nb + " " + b2s(k.IsPrivate()) + " " + itoa(int(k.Depth())) + " " + u64s(uint64(k.ParentFingerprint())) + " " + xkeyObs(hdkeychain.NewKeyFromString(str))
+		// Zero: every key, whatever its depth, leaves no key material - the fingerprint reads 0 and the buffers the raw
+		// constructor was handed (it keeps the caller's slices) are wiped
+		k.Zero()
+		wiped := true
+		for _, b := range [][]byte{keyBuf, ccBuf, fpBuf} {
+			for _, c := range b {
+				wiped = wiped && c == 0
+			}
+		}
+		return obs + " Z:" + u64s(uint64(k.ParentFingerprint())) + ":" + b2s(wiped)
 	case "xrt": // derive, serialise, parse back
 		k, obs := hdWalk(netIdx(a[0]), unhx(a[1]), splitOr(a[2], ","))
 		if k == nil {
